@@ -14,10 +14,10 @@ func ruleEvict(cx *Ctx) {
 	const rAsync = "C06.async"
 	const rStat = "C20.evict"
 	const rCause = "C07.causeflow"
-	cx.R.Rule(rVictim, 2, "automatic removal unlinks the mapping only on the path where the mapped node is pointer-identical to the victim; otherwise the table is left unchanged")
-	cx.R.Rule(rEvict, 3, "the eviction callback unlinks the victim from the eviction policy, unschedules it and marks it dead on all paths")
-	cx.R.Rule(rAsync, 2, "the eviction callback emits the deferred deletion report exactly once iff its table removal happened, for the victim's key/value with the atomic report's cause")
-	cx.R.Rule(rStat, 2, "an eviction is recorded exactly once, with the victim's weight, iff the table removal happened")
+	cx.R.Rule(rVictim, 1, "automatic removal unlinks the mapping only on the path where the mapped node is pointer-identical to the victim; otherwise the table is left unchanged")
+	cx.R.Rule(rEvict, 1, "the eviction callback unlinks the victim from the eviction policy, unschedules it and marks it dead on all paths")
+	cx.R.Rule(rAsync, 1, "the eviction callback emits the deferred deletion report exactly once iff its table removal happened, for the victim's key/value with the atomic report's cause")
+	cx.R.Rule(rStat, 1, "an eviction is recorded exactly once, with the victim's weight, iff the table removal happened")
 	cx.R.Rule(rCause, 1, "the eviction callback reports Expiration exactly when the victim is expired at the callback's time, Overflow otherwise")
 	pc := cx.consts(rEvict)
 	if !pc.ok {
@@ -130,7 +130,7 @@ func ruleEvict(cx *Ctx) {
 // ruleC20Load: wrapLoad records exactly one load outcome per dispatch.
 func ruleC20Load(cx *Ctx) {
 	const rule = "C20.load"
-	cx.R.Rule(rule, 3, "wrapLoad records exactly one of load success / failure on every path after the dispatch (including the path that re-raises a loader panic); success iff the error is nil or ErrNotFound; loaders are dispatched only inside wrapLoad")
+	cx.R.Rule(rule, 1, "wrapLoad records exactly one of load success / failure on every path after the dispatch (including the path that re-raises a loader panic); success iff the error is nil or ErrNotFound; loaders are dispatched only inside wrapLoad")
 	spec := opSpec{"wrapLoad", "cache", "wrapLoad", nil, "wrapLoad", nil}
 	r := cx.runOp(rule, spec)
 	if r == nil {
